@@ -321,6 +321,41 @@ impl UnitQuaternion {
     pub fn transform_point(&self, p: &Point3) -> (r: Point3) ensures r == transform_point_s(*self, *p) { unimplemented!() }
 }
 
+// ---- frame.rs (C17): ASSUMED nalgebra contracts over the real-valued view (M2: exact arithmetic) ----------
+/// `v.normalize()` == v / |v| for a vector of non-zero length (stated without division: |v| * result == v)
+pub broadcast axiom fn ax_normalize(a: Vector3)
+    ensures
+        #![trigger normalize_s(a)]
+        a.vfin() && rv(norm_s(a)) != 0real ==> normalize_s(a).vfin() && vscale(rv(norm_s(a)), normalize_s(a).v()) == a.v();
+/// `Matrix3::from_columns(&[a, b, c])`: the matrix whose COLUMNS are a, b, c
+pub broadcast axiom fn ax_from_columns(a: Vector3, b: Vector3, c: Vector3)
+    ensures
+        #![trigger from_columns_s(a, b, c)]
+        a.vfin() && b.vfin() && c.vfin() ==> from_columns_s(a, b, c).mfin() && from_columns_s(a, b, c).m() == mtr(M3 { a: a.v(), b: b.v(), c: c.v() });
+pub broadcast axiom fn ax_transpose(m: Matrix3)
+    ensures
+        #![trigger transpose_s(m)]
+        m.mfin() ==> transpose_s(m).mfin() && transpose_s(m).m() == mtr(m.m());
+/// `Rotation3::from_matrix_unchecked(m)` keeps the entries (spec-level restatement of the exec contract above)
+pub broadcast axiom fn ax_rot_of_mat(m: Matrix3)
+    ensures
+        #![trigger rot_of_mat_s(m)]
+        forall|i: int, j: int| rot_of_mat_s(m).e(i, j) == m.e(i, j);
+/// `UnitQuaternion::from_rotation_matrix(r)` reproduces the rotation matrix (spec-level restatement of the exec contract
+/// above; nalgebra guarantees it for proper rotations - the callers' matrices are proved orthogonal, det = +1 is not mechanised)
+pub broadcast axiom fn ax_quat_of_rot(r: Rotation3)
+    ensures
+        #![trigger quat_of_rot_s(r)]
+        r.mfin() ==> quat_of_rot_s(r).qfin() && quat_of_rot_s(r).m() == r.m();
+/// `q.transform_point(&p)` == R(q) p
+pub broadcast axiom fn ax_transform_point(q: UnitQuaternion, p: Point3)
+    ensures
+        #![trigger transform_point_s(q, p)]
+        q.qfin() && p.pfin() ==> transform_point_s(q, p).pfin() && transform_point_s(q, p).v() == mvec(q.m(), p.v());
+pub broadcast group group_na_frame {
+    ax_normalize, ax_from_columns, ax_transpose, ax_rot_of_mat, ax_quat_of_rot, ax_transform_point,
+}
+
 pub broadcast axiom fn ax_mat_mul(a: Matrix3, b: Matrix3)
     requires a.mfin(), b.mfin()
     ensures (#[trigger] mat_mul_s(a, b)).mfin(), mat_mul_s(a, b).m() == mmul(a.m(), b.m());
